@@ -22,7 +22,7 @@ FixV(v) ==
 FixCfgs(c) == [n \in Names |-> FixV(c[n])]
 FixOp(o) ==
     LET o1 == IF "v" \in DOMAIN o THEN [o EXCEPT !.v = FixV(@)] ELSE o
-        o2 == IF "k" \in DOMAIN o1 THEN [o1 EXCEPT !.k = FixV(@)] ELSE o1
+        o2 == IF "k" \in DOMAIN o1 /\ o1.m # "item_set" THEN [o1 EXCEPT !.k = FixV(@)] ELSE o1
         o3 == IF "vs" \in DOMAIN o2 THEN [o2 EXCEPT !.vs = [i \in DOMAIN o2.vs |-> FixV(o2.vs[i])]] ELSE o2
     IN  IF "kv" \in DOMAIN o3 THEN [o3 EXCEPT !.kv = [i \in DOMAIN o3.kv |-> <<FixV(o3.kv[i][1]), FixV(o3.kv[i][2])>>]] ELSE o3
 
